@@ -92,6 +92,7 @@ package memfs
 // a handle owns the file's data lock from creation until Close
 //@ func NewFileHandler [C04 C09]
 //@   requires file != nil
+//@   modifies $none
 //@   acquires file.dataMU
 //@   ensures handler != nil && fresh(handler) && handler.file == file && handler.pointer == 0
 // Write appends exactly the given bytes
@@ -124,7 +125,7 @@ package memfs
 //@   field nodes guarded_by mu
 //@   field index guarded_by mu
 //@   field time guarded_by mu
-//@ tracktype [C01 C09] memfs.Dir memfs.File
+//@ tracktype [C01 C04 C09] memfs.Dir memfs.File
 //@ define typedNode(x iface) bool = (typeis(x, "*memfs.Dir") && hastype(payload(x), "memfs.Dir")) || (typeis(x, "*memfs.File") && hastype(payload(x), "memfs.File"))
 //@ define isNode(x iface) bool = typedNode(x) && allocated(payload(x))
 //@ define nodeName(x iface) string = ite(typeis(x, "*memfs.Dir"), as(x, "*memfs.Dir").name, as(x, "*memfs.File").name)
@@ -231,6 +232,8 @@ package memfs
 //@   requires forall(k, 0 <= k && k < len(nodes) ==> isNode(nodes[k]) && Normal(nodeName(nodes[k])))
 //@   requires forall(a, forall(b, 0 <= a && a < b && b < len(nodes) ==> nodeName(nodes[a]) != nodeName(nodes[b])))
 //@   ensures result != nil && fresh(result) && fresh(ref(result.index)) && result.name == name && DirInv(result) && len(result.nodes) == len(nodes)
+//@   ensures arr(result.nodes) == arr(nodes) && off(result.nodes) == off(nodes)
+//@   ensures forallp(r, dyntype(r), isa(r, "memfs.Dir") && !old(allocated(r)) ==> r == ref(result))
 //@   loop 1 invariant forallp(r, dyntype(r), isa(r, "memfs.Dir") ==> old(allocated(r)) || r == ref(dir))
 //@   loop 1 invariant arr(dir.nodes) == arr(nodes) && off(dir.nodes) == off(nodes) && allocated(ref(dir.index)) && allocated(dir)
 //@   loop 1 invariant -1 <= $i && $i < len(dir.nodes) && dir.index != nil && fresh(ref(dir.index)) && fresh(dir) && dir.name == name && len(dir.nodes) == len(nodes) && len(dir.index) == $i + 1
@@ -243,3 +246,218 @@ package memfs
 //@   modifies $none
 //@   allocates memfs.File
 //@   ensures result != nil && fresh(result) && result.name == name && result.data == data
+
+// ---- C01: path level ----
+// lookups walk the index of each directory on the way; they never change anything
+//@ func getNodeByPathNodes [C01 C09]
+//@   requires Tree() && isa(dir, "memfs.Dir")
+//@   modifies $none
+//@   ensures err == nil ==> isNode(node)
+//@   ensures err != nil ==> node == nil
+//@   loop 1 invariant 0 <= i && i <= len(pathNodes)
+//@   loop 1 decreases len(pathNodes) - i
+//@   loop 2 invariant 0 <= i && i <= len(pathNodes) && isNode(node) && isa(dir, "memfs.Dir")
+//@   loop 2 decreases len(pathNodes) - i
+//@ func getDirByPathNodes [C01 C09]
+//@   requires Tree() && isa(dir, "memfs.Dir")
+//@   modifies $none
+//@   ensures err == nil ==> isa(out, "memfs.Dir")
+//@   ensures err != nil ==> out == nil
+//@ func getFileByPathNodes [C01 C09]
+//@   requires Tree() && isa(dir, "memfs.Dir")
+//@   modifies $none
+//@   ensures err == nil ==> isa(out, "memfs.File")
+//@   ensures err != nil ==> out == nil
+//@ func getNodeByPath [C01 C09]
+//@   requires Tree() && isa(d, "memfs.Dir")
+//@   modifies $none
+//@   ensures err == nil ==> isNode(node)
+//@   ensures err != nil ==> node == nil
+//@ func getDirByPath [C01 C09]
+//@   requires Tree() && isa(d, "memfs.Dir")
+//@   modifies $none
+//@   ensures err == nil ==> isa(node, "memfs.Dir")
+//@   ensures err != nil ==> node == nil
+//@ func getFileByPath [C01 C09]
+//@   requires Tree() && isa(d, "memfs.Dir")
+//@   modifies $none
+//@   ensures err == nil ==> isa(node, "memfs.File")
+//@   ensures err != nil ==> node == nil
+
+// creating the directories of a path: every segment handed to mkdir is a normal name, so no
+// node named "", "." or ".." can ever appear in the tree
+//@ func mkdirAllNodes [C01 C09]
+//@   requires Tree() && isa(d, "memfs.Dir")
+//@   requires forall(k, 0 <= k && k < len(nodesPath) ==> NoSlash(nodesPath[k]))
+//@   modifies memfs.Dir.nodes, M:string:fs.FileInfo, E:fs.FileInfo, $maplen
+//@   allocates memfs.Dir
+//@   ensures Tree()
+//@   ensures err == nil ==> isa(dir, "memfs.Dir")
+//@   ensures err != nil ==> dir == nil
+//@   loop 1 invariant Tree() && isa(d, "memfs.Dir") && -1 <= $i && $i < len(nodesPath)
+//@   loop 1 decreases len(nodesPath) - $i
+//@ func mkdirAll [C01 C09]
+//@   requires Tree() && isa(d, "memfs.Dir")
+//@   modifies memfs.Dir.nodes, M:string:fs.FileInfo, E:fs.FileInfo, $maplen
+//@   allocates memfs.Dir
+//@   ensures Tree()
+//@   ensures err == nil ==> isa(dir, "memfs.Dir")
+
+// the last segment of a destination path names the node to create: a normal name
+//@ func splitContainsPath [C01 C09]
+//@   modifies $none
+//@   ensures err == nil ==> Normal(nodeName) && forall(k, 0 <= k && k < len(dirNodePath) ==> NoSlash(dirNodePath[k]))
+
+// removal: with emptyOnly a directory is removed only when it has no children
+//@ func removeNodeByNodePath [C01 C09]
+//@   requires Tree() && isa(d, "memfs.Dir")
+//@   modifies memfs.Dir.nodes, M:string:fs.FileInfo, E:fs.FileInfo, $maplen
+//@   ensures Tree()
+//@   at_call removeNodeByName requires !emptyOnly || !typeis(dirNode.index[$1], "*memfs.Dir") || len(as(dirNode.index[$1], "*memfs.Dir").nodes) == 0
+//@ func removeNodeByPath [C01 C09]
+//@   requires Tree() && isa(d, "memfs.Dir")
+//@   modifies memfs.Dir.nodes, M:string:fs.FileInfo, E:fs.FileInfo, $maplen
+//@   ensures Tree()
+
+// copies are deep: the copy and everything below it are new objects with equal names and bytes
+//@ func copyFile [C01 C09]
+//@   requires isa(f, "memfs.File")
+//@   modifies $none
+//@   allocates memfs.File
+//@   ensures result1 == nil && fresh(result0) && isa(result0, "memfs.File") && result0.name == newName
+//@   ensures fresh(arr(result0.data)) && len(result0.data) == len(f.data) && forall(k, 0 <= k && k < len(f.data) ==> result0.data[k] == f.data[k])
+//@ func copyDir [C01 C09]
+//@   requires Tree() && isa(d, "memfs.Dir")
+//@   modifies $none
+//@   allocates memfs.Dir memfs.File
+//@   ensures Tree()
+//@   ensures result1 == nil ==> fresh(result0) && isa(result0, "memfs.Dir") && result0.name == newName && len(result0.nodes) == len(d.nodes)
+//@   ensures result1 == nil ==> forall(k, 0 <= k && k < len(d.nodes) ==> fresh(payload(result0.nodes[k])) && tag(result0.nodes[k]) == tag(d.nodes[k]) && nodeName(result0.nodes[k]) == nodeName(d.nodes[k]))
+//@   ensures forallp(r, dyntype(r), isa(r, "memfs.Dir") && !old(allocated(r)) ==> !old(allocated(arr(ptr(r, "memfs.Dir").nodes))))
+//@   loop 1 invariant Tree() && 0 <= i && i <= len(d.nodes) && len(nodescopy) == len(d.nodes) && fresh(arr(nodescopy)) && allocated(arr(nodescopy)) && off(nodescopy) == 0 && Unowned(arr(nodescopy)) && heldR(d.mu)
+//@   loop 1 invariant forall(k, 0 <= k && k < i ==> isNode(nodescopy[k]) && fresh(payload(nodescopy[k])) && tag(nodescopy[k]) == tag(d.nodes[k]) && nodeName(nodescopy[k]) == nodeName(d.nodes[k]))
+//@   loop 1 invariant forallp(r, dyntype(r), isa(r, "memfs.Dir") && !old(allocated(r)) ==> !old(allocated(arr(ptr(r, "memfs.Dir").nodes))))
+//@   loop 1 decreases len(d.nodes) - i
+//@ func copyNode [C01 C09]
+//@   requires Tree() && isNode(node)
+//@   modifies $none
+//@   allocates memfs.Dir memfs.File
+//@   ensures Tree()
+//@   ensures err == nil ==> isNode(result) && fresh(payload(result)) && nodeName(result) == newName
+//@   ensures forallp(r, dyntype(r), isa(r, "memfs.Dir") && !old(allocated(r)) ==> !old(allocated(arr(ptr(r, "memfs.Dir").nodes))))
+
+// ---- C01: the 16 Filespace operations keep the tree well formed, normalise every path
+// ---- before the lookup, and hand listings and contents in and out as snapshots ----
+//@ type Filespace
+//@   field root immutable
+//@ define FsInv(fs ref) bool = fs.root != nil && isa(fs.root, "memfs.Dir") && Tree()
+//@ func NewFilespace [C01 C09]
+//@   requires Tree()
+//@   modifies $none
+//@   allocates memfs.Dir
+//@   ensures result1 == nil && typeis(result0, "*memfs.Filespace") && FsInv(as(result0, "*memfs.Filespace"))
+// listings and contents are snapshots
+//@ func (*Dir).getNodes [C01 C09]
+//@   requires DirInv(d)
+//@   modifies $none
+//@   ensures fresh(arr(result)) && len(result) == len(d.nodes) && forall(k, 0 <= k && k < len(result) ==> result[k] == d.nodes[k])
+//@ func (*File).getData [C01 C09]
+//@   modifies $none
+//@   ensures (fresh(arr(result)) || len(result) == 0) && len(result) == len(f.data) && forall(k, 0 <= k && k < len(result) ==> result[k] == f.data[k])
+//@ func (*File).setData [C01 C09]
+//@   modifies memfs.File.data, memfs.File.time
+//@   ensures f.data == data
+
+//@ func (*Filespace).Copy [C01 C09]
+//@   requires FsInv(fs)
+//@   modifies memfs.Dir.nodes, M:string:fs.FileInfo, E:fs.FileInfo, $maplen
+//@   allocates memfs.Dir memfs.File
+//@   ensures Tree()
+//@   at_call getNodeByPath requires $1 == cleanPath(old(src))
+//@   at_call splitContainsPath requires $0 == cleanPath(old(dest))
+//@ func (*Filespace).CopyDirectory [C01 C09]
+//@   requires FsInv(fs)
+//@   modifies memfs.Dir.nodes, M:string:fs.FileInfo, E:fs.FileInfo, $maplen
+//@   allocates memfs.Dir memfs.File
+//@   ensures Tree()
+//@   at_call getDirByPath requires $1 == cleanPath(old(src))
+//@   at_call splitContainsPath requires $0 == cleanPath(old(dest))
+//@ func (*Filespace).CopyFile [C01 C09]
+//@   requires FsInv(fs)
+//@   modifies memfs.Dir.nodes, M:string:fs.FileInfo, E:fs.FileInfo, $maplen
+//@   allocates memfs.Dir memfs.File
+//@   ensures Tree()
+//@   at_call getFileByPath requires $1 == cleanPath(old(src))
+//@   at_call splitContainsPath requires $0 == cleanPath(old(dest))
+//@ func (*Filespace).ReadDir [C01 C09]
+//@   requires FsInv(fs)
+//@   modifies $none
+//@   ensures err == nil ==> fresh(arr(nodes)) && Unowned(arr(nodes))
+//@   ensures err != nil ==> nodes == nil
+//@   at_call getDirByPath requires $1 == cleanPath(old(srcPath))
+//@ func (*Filespace).IsExist [C01 C09]
+//@   requires FsInv(fs)
+//@   modifies $none
+//@   at_call getNodeByPath requires $1 == cleanPath(old(srcPath))
+//@ func (*Filespace).IsFile [C01 C09]
+//@   requires FsInv(fs)
+//@   modifies $none
+//@   at_call getFileByPath requires $1 == cleanPath(old(srcPath))
+//@ func (*Filespace).IsDir [C01 C09]
+//@   requires FsInv(fs)
+//@   modifies $none
+//@   at_call getDirByPath requires $1 == cleanPath(old(srcPath))
+//@ func (*Filespace).MkdirAll [C01 C09]
+//@   requires FsInv(fs)
+//@   modifies memfs.Dir.nodes, M:string:fs.FileInfo, E:fs.FileInfo, $maplen
+//@   allocates memfs.Dir
+//@   ensures Tree()
+//@   at_call mkdirAll requires $1 == cleanPath(old(destPath))
+//@ func (*Filespace).ReadFile [C01 C09]
+//@   requires FsInv(fs)
+//@   modifies $none
+//@   ensures err == nil ==> fresh(arr(data)) || len(data) == 0
+//@   ensures err != nil ==> data == nil
+//@   at_call getFileByPath requires $1 == cleanPath(old(srcPath))
+//@ func (*Filespace).WriteFile [C01 C09]
+//@   requires FsInv(fs)
+//@   modifies memfs.Dir.nodes, M:string:fs.FileInfo, E:fs.FileInfo, $maplen, memfs.File.data, memfs.File.time
+//@   allocates memfs.Dir memfs.File
+//@   ensures Tree()
+//@   at_call splitContainsPath requires $0 == cleanPath(old(destPath))
+//@   at_call NewFile requires (fresh(arr($3)) || len($3) == 0) && len($3) == old(len(data)) && forall(k, 0 <= k && k < old(len(data)) ==> $3[k] == old(data[k]))
+//@   at_call setData requires (fresh(arr($1)) || len($1) == 0) && len($1) == old(len(data)) && forall(k, 0 <= k && k < old(len(data)) ==> $1[k] == old(data[k]))
+//@ func (*Filespace).Remove [C01 C09]
+//@   requires FsInv(fs)
+//@   modifies memfs.Dir.nodes, M:string:fs.FileInfo, E:fs.FileInfo, $maplen
+//@   ensures Tree()
+//@   at_call removeNodeByPath requires $1 == cleanPath(old(nodePath)) && $2
+//@ func (*Filespace).RemoveAll [C01 C09]
+//@   requires FsInv(fs)
+//@   modifies memfs.Dir.nodes, M:string:fs.FileInfo, E:fs.FileInfo, $maplen
+//@   ensures Tree()
+//@   at_call removeNodeByPath requires $1 == cleanPath(old(nodePath)) && !$2
+//@ func (*Filespace).Lstat [C01 C09]
+//@   requires FsInv(fs)
+//@   modifies $none
+//@   ensures result1 == nil ==> isNode(result0)
+//@   at_call getNodeByPath requires $1 == cleanPath(old(nodePath))
+// stream handles: a reader starts at the first stored byte; a writer starts from an empty
+// file whatever was stored before (C04); both own the file's data lock until Close
+//@ func (*Filespace).Reader [C01 C04 C09]
+//@   requires FsInv(fs)
+//@   modifies $none
+//@   acquires as(reader, "*memfs.FileHandler").file.dataMU when err == nil
+//@   ensures err == nil ==> typeis(reader, "*memfs.FileHandler") && payload(reader) != 0 && as(reader, "*memfs.FileHandler").pointer == 0 && isa(as(reader, "*memfs.FileHandler").file, "memfs.File")
+//@   ensures err != nil ==> reader == nil
+//@   at_call getFileByPath requires $1 == cleanPath(old(srcPath))
+//@ func (*Filespace).Writer [C01 C04 C09]
+//@   requires FsInv(fs)
+//@   allocates memfs.Dir memfs.File
+//@   modifies memfs.Dir.nodes, M:string:fs.FileInfo, E:fs.FileInfo, $maplen, memfs.File.data, memfs.File.time
+//@   acquires as(writer, "*memfs.FileHandler").file.dataMU when err == nil
+//@   ensures Tree()
+//@   ensures err == nil ==> typeis(writer, "*memfs.FileHandler") && payload(writer) != 0 && as(writer, "*memfs.FileHandler").pointer == 0 && isa(as(writer, "*memfs.FileHandler").file, "memfs.File")
+//@   ensures err == nil ==> len(as(writer, "*memfs.FileHandler").file.data) == 0
+//@   ensures err != nil ==> writer == nil
+//@ func (*Filespace).Filespace [C01 C03]
